@@ -449,6 +449,10 @@ func checkRegexConstructor(c *Check, cons *ssa.Function) {
 			}
 		}
 		ok := prev != nil && next != nil && vConstStr("(")(prev.(ssa.CallInstruction).Common().Args[1]) && vConstStr(")")(next.(ssa.CallInstruction).Common().Args[1])
+		// or written in one call: "(" + expr + ")"
+		if parts := concatParts(arg); len(parts) == 3 && vConstStr("(")(parts[0]) && vConstStr(")")(parts[2]) && derivesFrom(parts[1], vFieldNamed("Regex"), nil) {
+			ok = true
+		}
 		c.Cond(ok, key+":wrapper-group", p.Pos(in.Pos()), "user expression written as ( expr )", "a user expression is not wrapped in exactly one capturing group")
 	})
 	if nWrap == 0 {
